@@ -100,8 +100,16 @@ def check_hif(repo, res):
     if not ok:
         res.add(mk_finding(PROP, "T-KEYS", w, w.node, f"HIF: top-level keys written by to_hif_dict {sorted(wkeys)} differ from those read by from_hif_dict {sorted(rkeys)}: {sorted(wkeys ^ rkeys)}", role="top"))
     # record keys
-    wrec = dict_literal_keys(w.node) - {"attrs"} | ({"attrs"} if "attrs" in dict_literal_keys(w.node) else set())
-    rrec = {k for k, _ in subscript_keys(r, "record")} | membership_keys(r, "record")
+    from .common import with_module_helpers
+
+    wrec = set()
+    for f in with_module_helpers(repo, w):
+        wrec |= dict_literal_keys(f.node)
+    rrec = set()
+    for f in with_module_helpers(repo, r):
+        for pname in set(f.all_params) | {"record"}:
+            if pname == "record" or f is not r:
+                rrec |= {k for k, _ in subscript_keys(f, pname)} | membership_keys(f, pname)
     ok = wrec == rrec
     res.inst("T-KEYS", f"HIF record keys written {sorted(wrec)} = read {sorted(rrec)}", ok)
     if not ok:
@@ -138,6 +146,19 @@ def check_hif(repo, res):
             for c in ast.walk(loop):
                 if isinstance(c, ast.Call) and getattr(c.func, "attr", "") == "append" and c.args and isinstance(c.args[0], ast.Tuple) and len(c.args[0].elts) == 3 and isinstance(c.args[0].elts[2], ast.Constant):
                     emitted[loop.iter.slice.value] = c.args[0].elts[2].value
+    if not emitted:
+        # comprehension form: [(n, e, d) for e, edge in ... for d in ("in", "out") for n in edge[d]]
+        for comp in ast.walk(be.node):
+            if isinstance(comp, (ast.ListComp, ast.GeneratorExp)) and isinstance(comp.elt, ast.Tuple) and len(comp.elt.elts) == 3 and isinstance(comp.elt.elts[2], ast.Name):
+                dvar = comp.elt.elts[2].id
+                lits, used = None, False
+                for g in comp.generators:
+                    if isinstance(g.target, ast.Name) and g.target.id == dvar and isinstance(g.iter, (ast.Tuple, ast.List)) and all(isinstance(x, ast.Constant) for x in g.iter.elts):
+                        lits = [x.value for x in g.iter.elts]
+                    if isinstance(g.iter, ast.Subscript) and isinstance(g.iter.slice, ast.Name) and g.iter.slice.id == dvar:
+                        used = True
+                if lits and used:
+                    emitted = {l: l for l in lits}
     if wm is None or rm is None or not emitted:
         raise AnalysisError("HIF direction maps (_convert_d lambdas / to_bipartite_edgelist literals) not found (extractor does not recognise the code)")
     ok = True
@@ -274,6 +295,10 @@ def attrs_written(w, table, view):
             return None if r is None else (not r)
         if isinstance(t, ast.Subscript) and isinstance(t.value, ast.Attribute) and t.value.attr == view:
             return True
+        if isinstance(t, ast.Name):
+            defs = [s.value for s in own_statements(w.node) if isinstance(s, ast.Assign) and any(isinstance(x, ast.Name) and x.id == t.id for x in s.targets)]
+            if defs and all(isinstance(d, ast.Subscript) and isinstance(d.value, ast.Attribute) and d.value.attr == view for d in defs):
+                return True
         return None
 
     def carries_attrs(expr):
@@ -388,6 +413,10 @@ def check_siblings(repo, res):
         collect(fn.node.body, branches)
         for br, classes in branches:
             n += 1
+            from .common import delegate_body
+
+            owner, body, _ = delegate_body(repo, fn, br.body, src)
+            br = ast.If(test=br.test, body=body, orelse=[], lineno=br.lineno, col_offset=0)
             calls = {c.func.attr for s in br.body for c in ast.walk(s) if isinstance(c, ast.Call) and isinstance(c.func, ast.Attribute)}
             assigned = {t.attr for s in br.body if isinstance(s, ast.Assign) for t in s.targets if isinstance(t, ast.Attribute)}
             edge_triples = any(isinstance(c, ast.Call) and getattr(c.func, "attr", "") in ("add_edges_from", "add_simplices_from") and c.args and isinstance(c.args[0], (ast.GeneratorExp, ast.ListComp)) and isinstance(c.args[0].elt, ast.Tuple) and len(c.args[0].elt.elts) == 3 for s in br.body for c in ast.walk(s))
@@ -400,7 +429,7 @@ def check_siblings(repo, res):
                 res.inst("T-SIBLING", f"{fname}[{'/'.join(classes)}] transfers {what}", ok)
                 if not ok:
                     res.add(mk_finding(PROP, "T-SIBLING", fn, br, f"{fname}: the branch for {'/'.join(classes)} input does not transfer the {what}, unlike its sibling branches", role=f"{'/'.join(classes)}:{what}"))
-    res.floor("network-to-network converter branches", n, 6)
+    res.floor("network-to-network converter branches", n, 4)
 
 
 # ------------------------------------------------------------------------------------------ role
